@@ -16,7 +16,11 @@ Placement == {[pre |-> Pre(m), pos |-> p, mode |-> md, groups |-> << >>] : m \in
 Switches == {[pre |-> Pre(m), pos |-> 0, mode |-> md, groups |-> g] : m \in {{}, {2, 5}, {7, 8}}, md \in {0, 16, 32},
              g \in {<<16>>, <<32>>, <<16, 32>>, <<32, 16>>, <<32, 32>>, <<16, 16>>, <<32, 16, 32>>, <<16, 32, 16>>}}
 
-Universe == IF Part = "place" THEN {c \in Placement : c.pos <= Len(c.pre)} ELSE Switches
+\* a second BITS directive before the first instruction, with nothing in between that emits code
+Twice == {[pre |-> Pre(m), pos |-> p, mode |-> md, groups |-> << >>, second |-> md2, pos2 |-> p2] :
+            m \in {mm \in Masks : Cardinality(mm) \in {2, 3}}, p \in 0..3, p2 \in 0..3, md \in {16, 32}, md2 \in {16, 32}}
+Universe == IF Part = "place" THEN {c \in Placement : c.pos <= Len(c.pre)}
+            ELSE IF Part = "twice" THEN {c \in Twice : c.pos <= c.pos2 /\ c.pos2 <= Len(c.pre)} ELSE Switches
 VARIABLE c
 Init == c \in Universe
 Next == UNCHANGED c
